@@ -153,3 +153,19 @@ Proof.
     split; [|exact Hin]. apply filter_In. split; [apply in_map_iff; exists l; auto|].
     destruct (filter (kind_ok has_receiver) (lfuns l)); [contradiction|reflexivity].
 Qed.
+
+(* kinds: a method-only definition is never collected for a receiver-less call and a function-only
+   definition never for a call with receiver; extension methods are collected for both *)
+Lemma kind_exclusive chain f :
+  (fismeth f = true -> fisfun f = false -> ~ In f (concat (collect false chain))) /\
+  (fisfun f = true -> fismeth f = false -> ~ In f (concat (collect true chain))) /\
+  (fisfun f = true -> fismeth f = true ->
+   forall r, In f (concat (collect r chain)) <-> exists l, In l (cut_excl chain) /\ In f (lfuns l)).
+Proof.
+  split; [|split].
+  - intros _ Hf H. apply collect_In in H as [l [_ [_ Hk]]]. cbn in Hk. congruence.
+  - intros _ Hm H. apply collect_In in H as [l [_ [_ Hk]]]. cbn in Hk. congruence.
+  - intros Hf Hm r. rewrite collect_In. split.
+    + intros [l [H1 [H2 _]]]. exists l. auto.
+    + intros [l [H1 H2]]. exists l. split; [exact H1|]. split; [exact H2|]. destruct r; cbn; assumption.
+Qed.
